@@ -41,8 +41,8 @@ func (v *loggerPlus) Printf(ctx Context, format string, a ...interface{}) {
 }
 
 func (v *loggerPlus) contextFormat(ctx Context, a ...interface{}) []interface{} {
-	if ctx, ok := ctx.(context.Context); ok {
-		if cid, ok := ctx.Value(cidKey).(int); ok {
+	if cc, ok := ctx.(context.Context); ok {
+		if cid, ok := cc.Value(cidKey).(int); ok {
 			return append([]interface{}{fmt.Sprintf("[%v][%v]", os.Getpid(), cid)}, a...)
 		}
 	} else {
@@ -52,8 +52,8 @@ func (v *loggerPlus) contextFormat(ctx Context, a ...interface{}) []interface{} 
 }
 
 func (v *loggerPlus) contextFormatf(ctx Context, format string, a ...interface{}) (string, []interface{}) {
-	if ctx, ok := ctx.(context.Context); ok {
-		if cid, ok := ctx.Value(cidKey).(int); ok {
+	if cc, ok := ctx.(context.Context); ok {
+		if cid, ok := cc.Value(cidKey).(int); ok {
 			return "[%v][%v] " + format, append([]interface{}{os.Getpid(), cid}, a...)
 		}
 	} else {
